@@ -23,8 +23,10 @@ ROOT = os.path.dirname(os.path.dirname(os.path.abspath(__file__)))
 REPO = os.environ.get("VERIF_REPO", "/repo")
 SPEC = os.path.join(ROOT, "spec")
 HARNESS = os.path.join(ROOT, "harness")
-EVIDENCE = os.path.join(ROOT, "evidence")
-REPLAY = os.path.join(ROOT, "evidence", "replay")
+# (VERIF_EVIDENCE_DIR redirects evidence + replay artefacts, used when the checks are run against a
+# scratch copy of the repository for mutation experiments, so that the committed evidence is untouched)
+EVIDENCE = os.environ.get("VERIF_EVIDENCE_DIR") or os.path.join(ROOT, "evidence")
+REPLAY = os.path.join(EVIDENCE, "replay")
 TLA_CP = "/opt/veriftools/tla/tla2tools.jar:/opt/veriftools/tla/CommunityModules-deps.jar"
 NCPU = os.cpu_count() or 4
 
@@ -117,7 +119,7 @@ def stage_specs(dst, files):
 
 def tlc(ctx, files, module, cfg, name=None, workers=None, timeout=600, simulate=None,
         deadlock=False, heap=None, extra=(), dfs_queue=False, workdir=None, extra_files=(),
-        coverage=False, seed=None):
+        coverage=False, seed=None, jvm=()):
     """Run TLC.  `files`: spec files to stage; `cfg`: cfg file name (staged) or literal text.
     simulate: dict(num=, depth=, file=basename or None).  Returns TLCResult."""
     d = workdir or ctx.sub(name or module)
@@ -136,7 +138,7 @@ def tlc(ctx, files, module, cfg, name=None, workers=None, timeout=600, simulate=
     tmp = os.path.join(d, "tmp")
     os.makedirs(meta, exist_ok=True)
     os.makedirs(tmp, exist_ok=True)
-    props = []
+    props = list(jvm)
     if dfs_queue:
         props.append("-Dtlc2.tool.queue.IStateQueue=StateDeque")
     cmd = _java_cmd(tmp, heap, props)
